@@ -198,20 +198,23 @@ fn two_lines(t1: f64, s1: Shape, l1: &'static str, t2: f64, s2: Shape, l2: &'sta
 }
 
 // ---- one line ----
-// @verif property=C12 tier=quick timeout=900 mem=16 bounds="1 line '0,$b,$c,$d,$e,$f,1,$g': time 0, timing change; beat length every f64 / error; signature, bank, custom bank, volume, flags every i32 / error; mode, default bank, default volume symbolic"
+// @verif property=C12,C06,C01 tier=quick timeout=900 mem=16 bounds="1 line '0,$b,$c,$d,$e,$f,1,$g': time 0, timing change; beat length every f64 / error; signature, bank, custom bank, volume, flags every i32 / error; mode, default bank, default volume symbolic"
 oracle_proof!(c12_one_timing_t0, 32, one_line(0.0, Shape::FullTiming, "0,$b,$c,$d,$e,$f,1,$g"));
-// @verif property=C12 tier=quick timeout=900 mem=16 bounds="1 line '10,$b,$c,$d,$e,$f,0,$g': time 10, inherited (NaN beat length allowed -> ticks off)" covers=2
+// @verif property=C12,C06,C01 tier=quick timeout=900 mem=16 bounds="1 line '10,$b,$c,$d,$e,$f,0,$g': time 10, inherited (NaN beat length allowed -> ticks off)" covers=2
 oracle_proof!(c12_one_inherited_t10, 32, one_line(10.0, Shape::FullInherited, "10,$b,$c,$d,$e,$f,0,$g"));
-// @verif property=C12 tier=quick timeout=900 mem=16 bounds="1 line '-5,$b' (only two fields: every default applies)"
+// @verif property=C12,C06,C01 tier=quick timeout=900 mem=16 bounds="1 line '-5,$b' (only two fields: every default applies)"
 oracle_proof!(c12_one_short_tm5, 32, one_line(-5.0, Shape::Short, "-5,$b"));
-// @verif property=C12 tier=quick timeout=900 mem=16 bounds="1 line '20,$b,0,$d' (time signature text '0' keeps 4/4; four fields)"
+// @verif property=C12,C06,C01 tier=quick timeout=900 mem=16 bounds="1 line '20,$b,0,$d' (time signature text '0' keeps 4/4; four fields)"
 oracle_proof!(c12_one_zerosig_t20, 32, one_line(20.0, Shape::ZeroSig, "20,$b,0,$d"));
 
 // ---- two lines, same time (one group) ----
-// @verif property=C12 tier=quick timeout=1500 mem=20 bounds="2 lines at time 10: timing change then inherited (full lines, all numeric fields symbolic)"
-oracle_proof!(c12_two_same_ti, 32, two_lines(10.0, Shape::FullTiming, "10,$b,$c,$d,$e,$f,1,$g", 10.0, Shape::FullInherited, "10,$h,$i,$j,$k,$l,0,$m"));
-// @verif property=C12 tier=quick timeout=1500 mem=20 bounds="2 lines at time 10: inherited then timing change"
-oracle_proof!(c12_two_same_it, 32, two_lines(10.0, Shape::FullInherited, "10,$b,$c,$d,$e,$f,0,$g", 10.0, Shape::FullTiming, "10,$h,$i,$j,$k,$l,1,$m"));
+// @verif property=C12 tier=quick timeout=1500 mem=20 bounds="2 lines at time 10: timing change (short line) then inherited (full line, all numeric fields symbolic)"
+oracle_proof!(c12_two_same_ti, 32, two_lines(10.0, Shape::Short, "10,$b", 10.0, Shape::FullInherited, "10,$h,$i,$j,$k,$l,0,$m"));
+// @verif property=C12 tier=quick timeout=1500 mem=20 bounds="2 lines at time 10: inherited (full line) then timing change (short line)"
+oracle_proof!(c12_two_same_it, 32, two_lines(10.0, Shape::FullInherited, "10,$b,$c,$d,$e,$f,0,$g", 10.0, Shape::Short, "10,$h"));
+// (two FULL lines of different kind at one time run out of memory at 20 GB in the quick tier)
+// @verif property=C12 tier=thorough timeout=3400 mem=44 bounds="2 full lines at time 10: timing change then inherited"
+oracle_proof!(c12_two_same_ti_full, 32, two_lines(10.0, Shape::FullTiming, "10,$b,$c,$d,$e,$f,1,$g", 10.0, Shape::FullInherited, "10,$h,$i,$j,$k,$l,0,$m"));
 // @verif property=C12 tier=quick timeout=1500 mem=20 bounds="2 lines at time 0: timing change then timing change (first wins)"
 oracle_proof!(c12_two_same_tt, 32, two_lines(0.0, Shape::FullTiming, "0,$b,$c,$d,$e,$f,1,$g", 0.0, Shape::Short, "0,$h"));
 // @verif property=C12 tier=quick timeout=1500 mem=20 bounds="2 lines at time 0: inherited then inherited (last wins)" covers=3
